@@ -24,10 +24,10 @@ One output line per input line.  Producer: harness/collect_common.py.
   init op ; op ; …   body op ; op ; …     op templates: `$p` in an int position = the int carried by
                                           kwarg p (token `i<k>` ↦ k, other tokens ↦ sum of char codes,
                                           absent ↦ 0); `rep n op` = n copies
-  param p str|sized|iter|scalar tok …
+  param p str|sized|iter|scalar|once tok …             (once = a one-shot iterator: generator / iter(...))
   kwargs                         → the list of kwargs dicts
-  run iterations max_steps period
-  runp iterations max_steps period number_processes     (rows compared after ordering the runs by RunId)
+  run iterations max_steps period [prog]                (prog: display_progress=True; no effect on the result)
+  runp iterations max_steps period number_processes [prog]   (rows compared after ordering the runs by RunId)
   Values: N | int | L | Lx,y,…
 -/
 open Mesa.Collect Mesa.Batch
@@ -262,6 +262,7 @@ def parsePVal (kind : String) (toks : List String) : Option (PVal String) :=
   | "scalar", [t] => some (.scalar t)
   | "sized", ts => some (.sized ts)
   | "iter", ts => some (.iter ts)
+  | "once", ts => some (.once ts)
   | _, _ => none
 
 def defLine (d : DSt) (ws : List String) : Option DSt :=
@@ -342,7 +343,7 @@ def stepLine (d : DSt) (ws : List String) : DSt × String :=
         | .ok kws => (d, " ".intercalate ("ok" :: kws.map fmtKw))
         | .error e => (d, fmtErr e)
       | "run" =>
-        match rest with
+        match (if rest.getLast? = some "prog" then rest.dropLast else rest) with
         | [it, ms, per] =>
           match it.toNat?, ms.toNat?, per.toInt? with
           | some it, some ms, some per => (d, runOut d it ms per)
@@ -351,7 +352,7 @@ def stepLine (d : DSt) (ws : List String) : DSt × String :=
       | "runp" =>
         -- number_processes = np > 1: the runs come back in any order; the harness orders the
         -- runs' row chunks by RunId, which is the serial result (C13_parallel_perm_serial)
-        match rest with
+        match (if rest.getLast? = some "prog" then rest.dropLast else rest) with
         | [it, ms, per, np] =>
           match it.toNat?, ms.toNat?, per.toInt?, np.toNat? with
           | some it, some ms, some per, some np => if np = 0 then (d, "bad-op") else (d, runOut d it ms per)
